@@ -1325,7 +1325,16 @@ def _canon(e):
         if isinstance(e.op, ast.UAdd):
             return _canon(e.operand)
         if isinstance(e.op, ast.Not):
+            # not (a and b) is (not a) or (not b) - both are truth values, whatever a and b are
+            if isinstance(e.operand, ast.BoolOp):
+                flipped = ast.BoolOp(op=ast.Or() if isinstance(e.operand.op, ast.And) else ast.And(),
+                                     values=[ast.UnaryOp(op=ast.Not(), operand=v) for v in e.operand.values])
+                return _canon(flipped)
             c = _canon(e.operand)
+            # not (len(x) == 2) is len(x) != 2: a length and a literal number are plain scalars
+            if isinstance(c, tuple) and c[0] in ("==", "!=") and len(c) == 3 and all(
+                    isinstance(x, tuple) and (x[0] == "const" and isinstance(x[1], (int, str)) or x[:2] == ("call", "len")) for x in c[1:]):
+                return ("!=" if c[0] == "==" else "==",) + c[1:]
             inner = e.operand.operand if isinstance(e.operand, ast.UnaryOp) and isinstance(e.operand.op, ast.Not) else None
             if isinstance(c, tuple) and c[0] == "not" and (inner is None or _boolean_valued(inner)):
                 return c[1]     # `not (a is not b)`; `not not <truth value>` (but `not not x` is bool(x), not x)
@@ -1465,6 +1474,8 @@ def _canon(e):
                 return ("call", name) + tuple(args) + (kws,)
             if fn.attr in _METHOD_TO_FUNC:
                 return ("call", _METHOD_TO_FUNC[fn.attr], _canon(fn.value)) + tuple(args) + (kws,)
+            if fn.attr == "__getitem__" and len(args) == 1 and not kws and not isinstance(e.args[0], ast.Starred):
+                return ("[]", _canon(fn.value), args[0])          # x.__getitem__(k) is x[k]
             return ("mcall", _canon(fn.value), fn.attr) + tuple(args) + (kws,)
         name = ast.unparse(fn)
         name = _FUNC_ALIASES.get(name, name)
